@@ -24,6 +24,7 @@ fn c07_kinds(thorough: bool) -> Vec<M> {
         send(&[(0, 1), (0, 1)]),
         send(&[(0, 0)]),
         send(&[]),
+        M::SendSelf(vec![(0, Amt(1))]),
         M::Burn(vec![(0, Amt(1))]),
         M::Delegate,
         M::Undelegate,
@@ -67,6 +68,9 @@ fn c16_msgs(thorough: bool) -> Vec<M> {
         send(&[(0, 1), (1, 1)]),
         send(&[(0, 1), (0, 1)]),
         send(&[(0, 2), (0, 1)]),
+        send(&[(0, 1), (0, 2)]),
+        M::SendSelf(vec![(0, Amt(1))]),
+        M::SendSelf(vec![(0, Amt(3))]),
         send(&[(0, 0)]),
         send(&[(1, 0)]),
         send(&[]),
@@ -125,6 +129,8 @@ fn configs(prop: &str, thorough: bool) -> Vec<(Cfg, Option<usize>)> {
                 c.freeze_callers = vec![0, 2];
                 c.exec_callers = vec![0, 1, 2, 3];
                 c.exec_lists = lists.clone();
+                c.exec_funds = vec![vec![], vec![(0, Amt(1))]];
+                c.exec_funded_max_len = 2;
                 out.push((c, None));
             }
             {
@@ -148,6 +154,8 @@ fn configs(prop: &str, thorough: bool) -> Vec<(Cfg, Option<usize>)> {
                 };
                 c.exec_callers = vec![A1, A2, S1, S2, X];
                 c.exec_lists = lists.clone();
+                // with and without coins attached to the call (attached: the empty list and every single kind)
+                c.exec_funds = vec![vec![], vec![(0, Amt(1))]];
                 out.push((c, None));
             }
             {
@@ -167,6 +175,7 @@ fn configs(prop: &str, thorough: bool) -> Vec<(Cfg, Option<usize>)> {
                 c.perm_targets = vec![(S1, if thorough { all16.clone() } else { vec![0, P_DELEGATE, P_WITHDRAW, 15] })];
                 c.exec_callers = vec![A1, S1, X, 5];
                 c.exec_lists = lists.clone();
+                c.exec_funds = vec![vec![], vec![(1, Amt(2))]];
                 out.push((c, None));
             }
         }
@@ -188,6 +197,13 @@ fn configs(prop: &str, thorough: bool) -> Vec<(Cfg, Option<usize>)> {
                 vec![s(&[(0, 1)]), M::Delegate],
                 vec![s(&[(0, 0)])],
                 vec![s(&[])],
+                // one coin list naming a denomination twice: each entry fits what is left, the sum may not
+                vec![s(&[(0, 1), (0, 2)])],
+                vec![s(&[(0, 2), (0, 2)])],
+                // the recipient is the proxy itself: who receives does not matter to the allowance
+                vec![M::SendSelf(vec![(0, Amt(1))])],
+                vec![M::SendSelf(vec![(0, Amt(3))])],
+                vec![M::SendSelf(vec![(0, Amt(2))]), s(&[(0, 1)])],
             ];
             if thorough {
                 spend.extend([
@@ -214,6 +230,8 @@ fn configs(prop: &str, thorough: bool) -> Vec<(Cfg, Option<usize>)> {
                 c.dec_exps = if thorough { vec![ExpA::Unset, ExpA::H(H0 + 1), ExpA::H(H0 + 2), ExpA::T(T0)] } else { vec![ExpA::Unset, ExpA::H(H0 + 1)] };
                 c.exec_callers = vec![S1, S2];
                 c.exec_lists = spend.clone();
+                // non-admins also try their grant calls with coins attached (the named coin / another one)
+                c.grant_funds = vec![GF::None, GF::Same, GF::Other];
                 out.push((c, None));
             }
             {
@@ -232,6 +250,7 @@ fn configs(prop: &str, thorough: bool) -> Vec<(Cfg, Option<usize>)> {
                 c.perm_targets = vec![(S1, vec![0, P_DELEGATE]), (S2, vec![15])];
                 c.exec_callers = vec![A2, S1, S2];
                 c.exec_lists = spend.iter().take(11).cloned().collect();
+                c.grant_funds = vec![GF::None, GF::Same, GF::Other];
                 if !thorough {
                     c.admin_lists = vec![vec![A1], vec![A1, A2]];
                     c.targets = vec![tg(S1, &[0], Some(2)), tg(A2, &[0], Some(1))];
@@ -356,6 +375,9 @@ fn configs(prop: &str, thorough: bool) -> Vec<(Cfg, Option<usize>)> {
                 ("A2,A1/immutable", vec![1, 0], false),
                 ("A1,A1/immutable", vec![0, 0], false),
                 ("X,A1,X/immutable", vec![3, 0, 3], false),
+                // mutable with a repeated address: UpdateAdmins must really replace the list
+                ("A1,X,X/mutable/admin-ops-only", vec![0, 3, 3], true),
+                ("X,A1,X/mutable/admin-ops-only", vec![3, 0, 3], true),
             ];
             // actors: A1 A2 S X
             for kind in [Kind::Whitelist, Kind::Subkeys] {
@@ -371,7 +393,14 @@ fn configs(prop: &str, thorough: bool) -> Vec<(Cfg, Option<usize>)> {
                     c.migrate_probe = true;
                     c.freeze_callers = vec![0, 1, 2, 3];
                     c.grant_callers = vec![0, 1, 2, 3];
-                    c.targets = if thorough { vec![tg(2, &[0, 1], Some(2)), tg(1, &[0], Some(1))] } else { vec![tg(2, &[0], Some(2)), tg(1, &[0], Some(1))] };
+                    c.targets = if thorough {
+                        vec![tg(2, &[0, 1], Some(2)), tg(1, &[0], Some(1))]
+                    } else if admins.contains(&1) {
+                        // quick: the (removable) admin A2 holds an allowance of its own only where it starts as an admin
+                        vec![tg(2, &[0], Some(2)), tg(1, &[0], Some(1))]
+                    } else {
+                        vec![tg(2, &[0], Some(2))]
+                    };
                     // zero-amount increases too: they can only (re-)date an allowance
                     c.inc_amounts = if thorough { vec![0, 1, 2] } else { vec![0, 1] };
                     c.dec_amounts = vec![1];
@@ -382,6 +411,13 @@ fn configs(prop: &str, thorough: bool) -> Vec<(Cfg, Option<usize>)> {
                     c.perm_targets = vec![(2, if thorough { vec![0, 1, 2, 4, 8, 3, 12, 15] } else { vec![0, P_DELEGATE, P_WITHDRAW, 15] }), (1, vec![P_REDELEGATE])];
                     c.exec_callers = vec![0, 1, 2, 3];
                     c.exec_lists = vec![vec![send(&[(0, 1)])], vec![send(&[])], vec![send(&[(0, 0)])], vec![M::Delegate], vec![M::WasmExec], vec![]];
+                    c.exec_funds = vec![vec![], vec![(0, Amt(1))]];
+                    c.grant_funds = vec![GF::None, GF::Same, GF::Other];
+                    if n.ends_with("admin-ops-only") {
+                        // the grant machine is explored from the other initial sets
+                        c.targets = vec![];
+                        c.perm_targets = vec![];
+                    }
                     out.push((c, None));
                 }
             }
@@ -500,6 +536,7 @@ fn run(prop: &str, tier: &str) -> i32 {
     rep.assumptions = vec![
         "single-contract runtime: each call is an atomic transaction on the real cw1-whitelist / cw1-subkeys entry points; Response.messages are observed, not dispatched (whether a relayed message later succeeds at its destination is outside the proxy)".into(),
         "amounts are {0..3} plus boundary values, two denominations, five actors; addresses are MockApi bech32 addresses; CanExecute is asked for valid sender addresses only".into(),
+        "bank balances are environment, not state: every caller is re-funded after each call so that coins can be attached to any call (the proxies never query balances)".into(),
         "message kinds gated behind cosmwasm_1_3 / cosmwasm_2_0 (FundCommunityPool, CosmosMsg::Any) are not in the alphabet".into(),
     ];
     let seed = mc::report::seed();
